@@ -249,6 +249,9 @@ def _run_shard(args):
         if stats.harness_error is None and stats.failure is None:
             stats.harness_error = traceback.format_exc()
     stats.wall = time.time() - t0
+    if stats.failure is not None:
+        # how to get here again from a fresh process, should the failing case turn out to depend on what the process did before it
+        stats.failure["recipe"] = {"module": modname, "leg": legname, "tier": tier, "seed": seed, "shard": shard, "nshards": nshards, "n": n}
     return stats
 
 
@@ -402,6 +405,8 @@ def write_replay(prop, legname, failure, seed, tier):
     os.makedirs(rdir, exist_ok=True)
     body = {"property": prop, "leg": legname, "case": failure["case"], "problem": failure["problem"],
             "seed": seed, "tier": tier}
+    if failure.get("recipe"):
+        body["recipe"] = failure["recipe"]
     sha = hashlib.sha1(json.dumps([prop, legname, failure["case"]], sort_keys=True, default=repr).encode()).hexdigest()[:12]
     path = os.path.join(rdir, "%s-%s.json" % (prop, sha))
     with open(path, "w") as f:
@@ -606,6 +611,16 @@ def run_replay(modname, path):
             problem = "[process state: %s] %s" % ("numpy traps / RuntimeWarning=error / decimal prec 3" if hostile else "defaults", problem)
             break
     process_state(False)
+    rc = body.get("recipe")
+    if problem is None and rc and rc.get("module") == modname:
+        # the case holds on its own: it may have failed because of what the process had done before it (caches, counters).  Re-run the
+        # shard that found it - a pure function of the code and the seed - from this fresh process.
+        st = _run_shard((rc["module"], rc["leg"], rc["tier"], rc["seed"], rc["shard"], rc["nshards"], rc["n"]))
+        if st.harness_error:
+            raise HarnessError(st.harness_error)
+        if st.failure is not None:
+            problem = "[the case alone holds; shard %d/%d of leg %s at seed %d, tier %s, run again from a fresh process] %s" % (
+                rc["shard"], rc["nshards"], rc["leg"], rc["seed"], rc["tier"], st.failure["problem"])
     if problem is not None:
         print("replay %s leg=%s: %s" % (path, leg.name, problem))
         print("VIOLATION property=%s replay=%s" % (mod.PROPERTY, path))
